@@ -637,6 +637,7 @@ class Exec:
                     ik = impl_key(k)
                     if ik and IMPLS.get(ik, (None, None))[1] != owner: continue
                 return self.call_fn(self.fns[k][0], [])
+        if re.match(r'^[A-Z]\w*$', key.split('::')[-1]) and 'promoted' not in key: return Agg(key.split('::')[-1], None, [])      # unit struct value
         raise Unsupported('const? ' + s)
     def compile_operand(self, s):
         r = self.op_cache.get(s)
